@@ -354,6 +354,7 @@ func init() {
 			{Engine: "A", Scenario: "late-install-response", Params: "seg=1024", Quick: 6, Thorough: 60},
 			{Engine: "A", Scenario: "compact-after-remove", Params: "seg=1024,hb=150", Quick: 6, Thorough: 60},
 			{Engine: "A", Scenario: "lifecycle", Quick: 3, Thorough: 20},
+			{Engine: "A", Scenario: "bootstrap-after-vote", Quick: 2, Thorough: 12},
 			{Engine: "A", Scenario: "deposed-leader-truncates", Params: "seg=1024,qw=60", Quick: 6, Thorough: 60},
 			{Engine: "A", Scenario: "deposed-leader-truncates", Params: "seg=1024,qw=60", Quick: 4, Thorough: 40, Race: true},
 			{Engine: "A", Scenario: "snapshot-vs-install", Params: "seg=1024", Quick: 3, Thorough: 30, Race: true},
